@@ -8,6 +8,11 @@ ops:    arrive <c> [timeout=<ms>] inner=<lat>:<out> | poll <c> | drop <c> | adv 
         idiomatic "no limit": not representable as a deadline, such a call is never due (tokio's timeout/sleep fall back to the far
         future); `manual dropsvc`: the adapter drops its TimeLimiter, the callers keep only their response futures (what
         ServiceExt::oneshot does); later arrivals are `noop`
+        readiness of the wrapped service (header, optional): ready=<script> ('r' ready / 'p' pending / 'e' error per poll_ready of the
+        inner service, exhausted: ready), rec=<ms> recall=1 (after a call on any instance every instance is Pending for <ms>),
+        rec=<ms> recall=0 (per-instance recovery: never met through the time limiter).  At `arrive` the adapter calls poll_ready the way
+        a Tower caller does: Pending -> `result c notready`, error -> `result c err:inner9:0`, and no call is made (the generator
+        retries later under a fresh caller id); with these options inner_call lines read `inner_call c k tag=<c> ready=<0|1>`
 log:    `inner_orphaned <c> <k>`: the last instance of the (scripted) inner service was dropped while call k was unfinished — the inner
         service of the harness ties in-flight work to live handles, like a client handle of a shared connection
 
@@ -142,7 +147,35 @@ def gen(rng, tier):
         cancel = rng.choice([0, 1])
         dyn = rng.choice([0, 1])
         header = "timelimiter timeout=%s cancel=%d dyn=%d" % (tmo_text(T), cancel, dyn)
+    # readiness of the wrapped service: always ready (50 %), not ready for a stretch after every call, never ready (again), failing
+    rd_script, rec, recall = "", 0, 0
+    if rng.random() < 0.50:
+        q = rng.random()
+        near = [x for x in (T - 1, T, T + 1) if 0 < x < FAR]
+        stretch = rng.choice([1, 2, 5, 10, 20, rng.randint(1, 40)] + near)
+        if q < 0.34:
+            rec, recall = stretch, 1
+        elif q < 0.42:
+            rec, recall = 10 ** 7, 1                      # never ready again after the first call
+        elif q < 0.54:
+            rd_script = "p" * rng.randint(1, 3) + rng.choice(["", "r", "rp", "re"])
+        elif q < 0.62:
+            rd_script = "p" * 64                          # never ready
+        elif q < 0.80:
+            rd_script = "".join(rng.choice("rrrppe") for _ in range(rng.randint(1, 8)))
+        elif q < 0.92:
+            rec, recall = stretch, 1
+            rd_script = "".join(rng.choice("rrrrpe") for _ in range(rng.randint(1, 6)))
+        else:
+            rec, recall = stretch, 0                      # control: a per-instance recovery is never met
+    if rd_script:
+        header += " ready=%s" % rd_script
+    if rec:
+        header += " rec=%d recall=%d" % (rec, recall)
+    script_left = [rd_script]
+    busy = [0]
     ncall = rng.randint(1, 6)
+    next_id = ncall + 1
     # the callers let go of the service (oneshot): never (70 %), as soon as every call has been made, or at a random point
     r = rng.random()
     dropsvc = "never" if r < 0.70 else "after-arrivals" if r < 0.88 else "random"
@@ -164,6 +197,17 @@ def gen(rng, tier):
             marks.append(now + lat[c])
         if eff[c] < FAR:
             marks.append(now + eff[c])
+        if rec and recall:
+            busy[0] = now + rec
+            if rec < FAR:
+                marks.append(busy[0])
+
+    def rd_answer():
+        """the generator's own idea of what the wrapped service answers now (only used to plan retries)"""
+        if now < busy[0]:
+            return "p"
+        a, script_left[0] = script_left[0][:1], script_left[0][1:]
+        return a if a in ("p", "e") else "r"
 
     nsteps = rng.randint(6, 40)
     for _ in range(nsteps):
@@ -205,6 +249,18 @@ def gen(rng, tier):
                 words.append("coop=1")
             words.append("inner=%d:%s" % (la, out))
             ops.append(" ".join(words))
+            if rd_answer() != "r":
+                # the wrapped service is not ready (or failed): no call is made; the caller comes back later under a fresh id
+                if next_id <= 12 and rng.random() < 0.8:
+                    pending.append(next_id)
+                    next_id += 1
+                if rng.random() < 0.15:
+                    ops.append("poll %d" % c)
+                if now < busy[0] < now + FAR and rng.random() < 0.5:
+                    d = max(0, busy[0] - now + rng.choice([-1, 0, 0, 1]))
+                    ops.append("adv %d" % d)
+                    now += d
+                continue
             arrived.append(c)
             eff[c] = t_eff
             lat[c] = None if out in ("never", "hog") else la
@@ -339,6 +395,7 @@ class View:
         self.dropped = {}     # caller -> (instant, position)     call future dropped by the caller
         self.orphan = {}      # caller -> (instant, serial, position)   inner call orphaned: last handle of the inner service gone
         self.dropsvc = None   # instant at which the callers let go of the service
+        self.refused = {}     # caller -> (instant, text, position): poll_ready was not Ready(Ok) at `arrive`, no call was made
         self.wakes_before_result = {}
         self.errors = []
         lastwake = {}
@@ -370,6 +427,11 @@ class View:
                 self.idrop[c] = (t, i)
             elif w[0] == "inner_orphaned":
                 self.orphan.setdefault(c, (t, w[2], i))
+            elif w[0] == "result" and c not in self.fp and (w[2] == "notready" or w[2].startswith("err:inner9:")):
+                # answered by poll_ready at `arrive`: the caller never got a call future
+                if c in self.refused:
+                    self.errors.append("caller %s: refused twice" % c)
+                self.refused[c] = (t, w[2], i)
             elif w[0] == "result":
                 if c in self.result:
                     self.errors.append("caller %s: two results" % c)
@@ -378,6 +440,9 @@ class View:
                 # the #wake line of the resolving poll directly precedes the events of that poll
                 self.wakes_before_result[c] = lw[1] if lw else []
         self.end = self.visited[-1]
+        self.arrivals = dict(self.script)         # every request, refused ones included
+        for c in self.refused:
+            self.script.pop(c, None)
 
     def times(self, c):
         """(timeout, done instant or None, deadline, outcome) of a first-polled caller"""
@@ -432,7 +497,7 @@ def mon_instant(case, lines, meta):
             gone = True
         elif w[0] == "arrive" and len(w) > 1 and w[1].isdigit() and w[1] not in seen:
             seen.add(w[1])
-            if not gone:
+            if not gone and w[1] not in v.refused:
                 live[w[1]] = False
         elif w[0] == "poll" and len(w) > 1 and w[1] in live:
             poll(w[1])
@@ -465,7 +530,8 @@ def mon_instant(case, lines, meta):
             pass
     for c, tx in expected.items():
         if c not in v.result:
-            return "caller %s still pending after a poll at t=%d >= min(done, deadline)=%d" % (c, tx, m_of[c])
+            return ("caller %s still pending after a poll at t=%d >= min(done, deadline)=%d (first polled at t=%s, timeout %s): a call resolves "
+                    "no later than its timeout after it starts" % (c, tx, m_of[c], v.fp.get(c), tmo_text(v.script[c][0]) if c in v.script else "?"))
     return None
 
 
@@ -614,6 +680,98 @@ def mon_background(case, lines, meta):
     return None
 
 
+def _rd_cfg(case):
+    cfg = kvs(case["header"])
+    rec = cfg.get("rec", "0")
+    return cfg.get("ready", ""), int(rec) if rec.isdigit() else 0, cfg.get("recall", "0") == "1"
+
+
+def mon_readiness(case, lines, meta):
+    """`poll_ready` of the time limiter is the wrapped service's: while that is not ready (recovering from a call, or by its script)
+    or has failed, the caller is told so and NO call is made — back-pressure is settled before `call()`, so that the timeout of
+    a call covers everything that happens after it was made; and a ready wrapped service is never refused.  The wrapped service's
+    behaviour is restated here from world.rs (busy until `rec` after the latest inner call = first poll; then the script)."""
+    v = View(case, lines, meta)
+    script, rec, recall = _rd_cfg(case)
+    script = list(script)
+    now = 0
+    busy = None          # (until, caller whose call started it, instant of that call)
+    live = {}            # caller with a call future -> first-polled?
+    seen = set()
+    gone = False
+    for o in case["ops"]:
+        w = o.split()
+        if not w:
+            continue
+
+        def first_poll(c):
+            nonlocal busy
+            if not live[c]:
+                live[c] = True
+                if rec and recall:
+                    busy = (now + rec, c, now)
+
+        if w[0] == "adv" and len(w) > 1 and w[1].isdigit():
+            now += int(w[1])
+        elif w[:2] == ["manual", "dropsvc"]:
+            gone = True
+        elif w[0] == "arrive" and len(w) > 1 and w[1].isdigit() and w[1] not in seen:
+            c = w[1]
+            seen.add(c)
+            if gone:
+                continue
+            if busy and now < busy[0]:
+                exp, why = "notready", "recovering until t=%d from the call of caller %s made at t=%d" % busy
+            else:
+                a = script.pop(0) if script else "r"
+                exp = {"p": "notready", "e": "err:inner9:0"}.get(a)
+                why = "its poll_ready answers %s here" % {"p": "Pending", "e": "an error"}.get(a, "Ready")
+            got = v.refused.get(c)
+            if exp is None:
+                if got:
+                    return "caller %s arrived at t=%d, the wrapped service was ready (%s), but the caller was told %s and no call was made" % (
+                        c, now, why, got[1])
+                live[c] = False
+            elif not got:
+                res = v.result.get(c)
+                fate = ("first polled at t=%s, %s" % (v.fp[c], "resolved with %s at t=%d" % (res[1], res[0]) if res else "never resolved")
+                        if c in v.fp else "never polled")
+                t_eff = v.script[c][0] if c in v.script else None
+                return ("caller %s arrived at t=%d while the wrapped service was not ready (%s): poll_ready of the time limiter must hand that on "
+                        "(%s) and no call may be made — readiness is settled before call(), the timeout (%s) of a call covers everything after it — "
+                        "but the caller was given a call future (%s)" % (c, now, why, exp, "?" if t_eff is None else tmo_text(t_eff), fate))
+            elif got[1] != exp or got[0] != now:
+                return "caller %s arrived at t=%d while the wrapped service was not ready (%s): expected %s at t=%d, got %s at t=%d" % (
+                    c, now, why, exp, now, got[1], got[0])
+        elif w[0] == "poll" and len(w) > 1 and w[1] in live:
+            first_poll(w[1])
+        elif w[0] == "drop" and len(w) > 1 and w[1] in live:
+            if not live[w[1]]:
+                del live[w[1]]
+        elif w[0] == "dropall":
+            for c in [c for c in live if not live[c]]:
+                del live[c]
+        elif w[0] == "settle":
+            for c in sorted(live, key=int):
+                first_poll(c)
+    for c in v.refused:
+        if c in v.call:
+            return "caller %s was refused (%s) but the inner service was called for it" % (c, v.refused[c][1])
+    return None
+
+
+def canon(lines):
+    """the scripted inner service with readiness options logs `inner_call c k tag=<c> ready=1`: the same event as `inner_call c k`
+    (`ready=0` — an instance called without having been polled ready — is left as it is and disagrees with the model)"""
+    out = []
+    for l in lines:
+        w = l.split()
+        if len(w) == 6 and w[1] == "inner_call" and w[4].startswith("tag=") and w[5] == "ready=1":
+            l = " ".join(w[:4])
+        out.append(l)
+    return out
+
+
 # ----------------------------------------------------------------------------- coverage
 
 def transitions(case, lines, meta=None):
@@ -634,6 +792,13 @@ def transitions(case, lines, meta=None):
         n = len([x for x in chain.split(",") if x[:1] in "dfc" and x[1:].isdigit()])
         if n > (ls is not None) + (lf is not None):
             tags.append("chain-overridden-setter")
+    rd_script, rec, recall = _rd_cfg(case)
+    if rd_script:
+        tags.append("readiness-script")
+    if rec:
+        tags.append("readiness-recovery" if recall else "readiness-recovery-per-instance")
+    refusals = 0
+    after_refusal = set()
     call = {}
     result = {}
     dropped_by_caller = set()
@@ -668,6 +833,18 @@ def transitions(case, lines, meta=None):
                 tags.append("detached-done-after-timeout-no-handle-left")
         elif w[0] == "result" and dropsvc_at is not None and li >= dropsvc_at and len(w) > 2 and w[2] == "err:timeout":
             tags.append("timeout-after-dropsvc")
+        if w[0] == "result" and c not in call and len(w) > 2 and (w[2] == "notready" or w[2].startswith("err:inner9:")):
+            refusals += 1
+            tags.append("refused-notready" if w[2] == "notready" else "refused-readyerr")
+            if w[2] == "notready" and bool(rd_script) != bool(rec and recall):
+                tags.append("refused-by-script" if rd_script else "refused-while-recovering")
+            if refusals >= 4 and not call:
+                tags.append("never-ready")
+            prev = w
+            continue
+        if w[0] == "inner_call" and c in script and refusals:
+            tags.append("accepted-after-refusal")
+            after_refusal.add(c)
         if w[0] == "inner_call" and c in script:
             call[c] = t
             t_eff, la, out, ta = script[c]
@@ -708,6 +885,8 @@ def transitions(case, lines, meta=None):
             deadline = call[c] + t_eff
             kind = "timeout" if w[2] == "err:timeout" else ("panic" if w[2] == "panic" else w[2].split(":")[0])
             tags.append("result-" + kind)
+            if kind == "timeout" and c in after_refusal:
+                tags.append("timeout-after-refusal")
             if t == call[c]:
                 tags.append("resolved-at-first-poll")
             hi = done is not None and done <= t
@@ -731,7 +910,9 @@ def transitions(case, lines, meta=None):
     return tags
 
 
-ALL = ["timeout-max", "timeout-max-cancel-own", "timeout-max-cancel-default", "timeout-max-nocancel-own", "timeout-max-nocancel-default",
+ALL = ["readiness-script", "readiness-recovery", "readiness-recovery-per-instance", "refused-notready", "refused-readyerr",
+       "refused-by-script", "refused-while-recovering", "never-ready", "accepted-after-refusal", "timeout-after-refusal",
+       "timeout-max", "timeout-max-cancel-own", "timeout-max-cancel-default", "timeout-max-nocancel-own", "timeout-max-nocancel-default",
        "dropsvc", "dropsvc-calls-in-flight", "arrive-after-dropsvc", "timeout-after-dropsvc", "detached-done-after-timeout-no-handle-left",
        "mode-cancel", "mode-nocancel", "source-per-request", "source-fixed", "first-poll-after-creation",
        "first-poll-later-than-slack", "chain-flag-before-source", "chain-source-before-flag", "chain-c0-before-timeout_fn",
@@ -746,7 +927,7 @@ ALL = ["timeout-max", "timeout-max-cancel-own", "timeout-max-cancel-default", "t
 
 
 def nontrivial(case, lines, tags):
-    return any(t.startswith(("result-timeout", "tie-", "late-", "inner-dropped", "detached-", "deadline-first")) for t in tags)
+    return any(t.startswith(("result-timeout", "tie-", "late-", "inner-dropped", "detached-", "deadline-first", "refused-")) for t in tags)
 
 
 LEVEL_NOTE = ("Trusted: Lean kernel; the transcription of tokio::time::timeout (inner future polled before the deadline), of "
@@ -760,7 +941,12 @@ LEVEL_NOTE = ("Trusted: Lean kernel; the transcription of tokio::time::timeout (
               "Handles of the service are not part of the model (the fate of an inner call is a function of its own caller's operations "
               "and the clock): that the layer keeps the inner service instance alive for as long as the call made on it runs is observed "
               "by the monitor c06-background-completion against a scripted inner service that notices when its last instance goes away "
-              "(inner_orphaned), with the callers' own handle dropped at any point (manual dropsvc = what oneshot does).")
+              "(inner_orphaned), with the callers' own handle dropped at any point (manual dropsvc = what oneshot does). "
+              "Readiness: the theorems quantify over every readiness behaviour of the wrapped service as modelled by TR.TimeLimiter.Rd (a script "
+              "of Ready/Pending/Err answers, a service-wide recovery time after every call — the harness's scripted inner service, transcribed "
+              "from world.rs) and, through refusals_change_no_call, over ANY interleaving of refused arrivals; that the real poll_ready hands the "
+              "wrapped service's answer on and never makes a call on a service that is not ready is observed by the correspondence check and "
+              "the monitor c06-readiness-propagated (its own restatement of the scripted service) on the sampled schedules.")
 
 SPECS = {
     "C06": {
@@ -768,16 +954,20 @@ SPECS = {
         "module": "TR.Props.C06",
         "gen": gen,
         "monitors": [("c06-no-panic", mon_nopanic), ("c06-resolution-instant", mon_instant), ("c06-result-kind", mon_kind),
-                     ("c06-inner-fate", mon_fate), ("c06-background-completion", mon_background),
+                     ("c06-readiness-propagated", mon_readiness), ("c06-inner-fate", mon_fate), ("c06-background-completion", mon_background),
                      ("c06-intime-result-lost", mon_intime_result)],
         "transitions": transitions,
+        "canon": canon,
         "nontrivial": nontrivial,
         "all_transitions": ALL,
         "model_modules": ["TR.Model.TimeLimiter", "TR.Lemmas.TimeLimiter"],
         "lean_files": ["TR.Model.TimeLimiter", "TR.Lemmas.TimeLimiter"],
         "sizes": (800, 40000),
         "rule": "seeded random op sequences (arrive/poll/drop/adv/settle/dropall, and in 30% of the cases one `manual dropsvc`: the callers let "
-                "go of the service, right after the calls are made or at a random point) over 1..6 callers, both cancellation modes, fixed and "
+                "go of the service, right after the calls are made or at a random point) over 1..6 callers (plus up to 6 retries of refused "
+                "arrivals under fresh ids), in 50% of the cases over a wrapped service with back-pressure (not ready for 1..40 ms / timeout-1..+1 "
+                "after every call, never ready again after the first call, never ready at all, a readiness script of Ready/Pending/Err answers, "
+                "both combined, or a per-instance recovery as a control), both cancellation modes, fixed and "
                 "per-request timeouts 0..40 ms, (5-6%) huge ones up to u64::MAX ms and (5-6%) `max` = Duration::MAX (not representable as a "
                 "deadline), the layer configured either by timeout/cancel/dyn or (55%) "
                 "by an explicit builder chain of 0..5 setters (timeout_duration / timeout_fn / cancel_running_future in any order, repeated, "
@@ -787,7 +977,8 @@ SPECS = {
         "level_text": "Theorems TR.Props.C06.{builder_mode_last_wins, builder_source_last_wins, nocancel_chain_never_drops, timeout_source, deadline_from_first_poll, awake_characterisation, resolves_from_wake, resolves_by_deadline, "
                       "pending_before_wake, settled_none_overdue, never_resolves_early, inner_wins_whenever_observed, "
                       "result_if_earlier, intime_result_never_lost, unlimited_resolves_with_inner_result, timeout_if_later, cancel_drops_at_deadline, "
-                      "nocancel_runs_to_completion, nocancel_timeout_leaves_task, independent}: for every configuration (any fixed or "
+                      "nocancel_runs_to_completion, nocancel_timeout_leaves_task, readiness_propagates, refusals_change_no_call, arrival_meets_readiness, "
+                      "resolves_by_deadline_whatever_readiness, independent}: for every configuration (any fixed or "
                       "per-request timeout, both modes), every operation sequence and every inner script, a caller polled at or after "
                       "min(done, deadline) resolves, with the inner result whenever the inner call has finished (in both modes, also "
                       "when polled late) and with the timeout error when only the deadline has passed; a call that finished before its "
@@ -796,7 +987,10 @@ SPECS = {
                       "in cancel mode the inner future is dropped in the step that reports the timeout; in "
                       "non-cancel mode it is never dropped and completes at its latency whatever happens to the caller; each caller's "
                       "record and history equal those of a single-caller run; the configuration a builder chain produces has, for the mode "
-                      "and for the timeout source, the value set last, wherever the other setters stand. The model is tied to the real TimeLimiterLayer by "
+                      "and for the timeout source, the value set last, wherever the other setters stand; a caller that finds the wrapped service "
+                      "Pending or failed is told so and no call is made (no record, no inner call), refused arrivals change no caller's record, and for "
+                      "every readiness behaviour of the wrapped service a call's deadline counts from its own first poll and a poll at or after it "
+                      "resolves the call (readiness is settled before call()). The model is tied to the real TimeLimiterLayer by "
                       "line-for-line agreement of event logs on generated schedules.",
         "level_note": LEVEL_NOTE,
         "trusted": ["tokio time::timeout / spawn / oneshot / select! / timer-wheel order as transcribed in TR.Model.TimeLimiter (sampled by the correspondence check)",
